@@ -721,6 +721,10 @@ func (c *Connection) processResult(from any, req *incomingRequest, result any, e
 			}
 		} else {
 			err = c.internalErrorf("%#v returned a malformed result for %q: %w", from, req.Method, respErr)
+			// The result cannot be sent, but the caller is waiting for an answer.
+			if response, respErr := NewResponse(req.ID, nil, fmt.Errorf("%w: marshaling result: %v", ErrInternal, respErr)); respErr == nil {
+				c.write(notDone{req.ctx}, response)
+			}
 		}
 	} else { // req is a notification
 		if result != nil {
